@@ -81,7 +81,10 @@ def spelling(rng, d, top=True):
 
 def gen_field(rng):
     r = rng.random()
-    if r < 0.85:
+    fc = G._focus_classes()
+    if fc and rng.random() < 0.5:
+        spec = ["src", rng.choice(fc)]
+    elif r < 0.85:
         spec = ["src", rng.choice(G.SRC_CLASSES + ["StringIntegerOrFloatColumn", "MafColumnRecord"])]
     else:
         spec = ["mix", ["src", "RequireNullValue"], ["src", rng.choice(G.MASKABLE)]]
@@ -111,6 +114,9 @@ def gen_line(rng):
     hit = []
     if stream == "one-odd":
         i = rng.randrange(len(cols))
+        fcols = G.focus_columns(cols)
+        if fcols and rng.random() < 0.7:
+            i = rng.choice(fcols)
         fields[i] = G.some_text(rng, cols[i][1], rng.choice(["boundary", "defect"]))
         hit = [i]
     fields = [f.replace("\t", " ").replace("\n", " ").replace("\r", " ") for f in fields]
